@@ -680,7 +680,9 @@ def cmp_hist(ck, c, res, mo):
                 detail="the object returned by step %d was altered by later conversions" % i)
         break
     # ---- correspondence
-    if (res["diff"] in ("geometry", "index_table") or (res["diff"] == "raises" and not stale)) and keys_ok:
+    frame_resized = stale and steps[-1]["export"] == "gdf" and steps[-1]["level"] == "da"
+    # (assigning a column of another length to an empty cached frame makes pandas add rows)
+    if ((res["diff"] in ("geometry", "index_table") and not frame_resized) or (res["diff"] == "raises" and not stale)) and keys_ok:
         ck.corr_failures.append({"case": c, "what": "geometry depends on the history although the model's machine is transparent",
                                  "impl": res["diff"]})
     if res["diff"] == "data" and not stale:
